@@ -7,14 +7,15 @@ from concurrent.futures import ProcessPoolExecutor
 from lib import common, play, stories
 
 LEVEL = "proof"
-THEOREM_MODULES = ["Proofs.C08", "Proofs.C08Sliced"]
+THEOREM_MODULES = ["Proofs.C08", "Proofs.C08Sliced", "Proofs.Guards"]
 REQUIRED_THEOREMS = [
     "Ink.C08.async_guards", "Ink.C08.async_always_completes", "Ink.C08.continue_keeps_recCount",
     "Ink.C17.continue_completes", "Ink.stepLoop_same",
     "Ink.C08.continueSingleStep_asyncEq", "Ink.C08.stepLoop_resume", "Ink.C08.stepLoop_sliced", "Ink.C08.unsafeConsumed",
     "Ink.C08.sliced_eq_blocking", "Ink.C08.sliced_eq_blocking_ok", "Ink.C08.sliced_eq_blocking_noHandler",
     "Ink.C08.pause_delivers_warnings",
-]
+    # the async guards of the model = the guards of the Rust source (translators/guards.py, every run)
+    "Ink.Guards.model_guards", "Ink.Guards.unguarded_reviewed"]
 RULE = ("a case = one story x one choice sequence x one pause schedule on the virtual step clock: every single pause "
         "position k = 1..K of every line, the pause-after-every-step schedule, and random multi-pause schedules; "
         "compared with the unsliced run line by line (text, tags, choices) and over the whole story (variables, "
